@@ -103,16 +103,22 @@ type w4World struct {
 
 	maps *w4MapModel
 
-	backups []w4Backup
-	nfile   int
+	backups         []w4Backup
+	nfile           int
 	conn            *w4MockConn
 	followerByQuery map[int64]*w4Follower
 	handler         *Handler
-	followers       []*w4Follower
-	nextQuery       int64
-	broadcasting    bool
-	broadcastPanic  string
-	aborted bool // a restart comparison failed: the rest of the run would only show consequences
+	calling         *w4Follower // follower whose RawGetJournal call is executing
+	heldFollower    *w4Follower // follower parked at the hook after the handler's re-check
+	holdFollowers   bool        // this run parks follower calls at that hook
+	// successful saves completed since the last broadcastJournal began, and the newest version they made
+	savesSinceBroadcast int
+	maxVerSeen          int64
+	followers           []*w4Follower
+	nextQuery           int64
+	broadcasting        bool
+	broadcastPanic      string
+	aborted             bool // a restart comparison failed: the rest of the run would only show consequences
 }
 
 type w4KnownVer struct {
@@ -217,7 +223,7 @@ func w4Run(t *testing.T, r *verifsim.Run) {
 	}
 	r.Config["flood_focus"] = floodFocus
 	clockMode := c.Intn(4, "clockmode") // 0 steady 1 long idle periods 2 jumps forward 3 jumps backward too
-	mapShare := c.Intn(3, "mapshare")    // 0: mostly entities, 1: mixed, 2: mostly mappings
+	mapShare := c.Intn(3, "mapshare")   // 0: mostly entities, 1: mixed, 2: mostly mappings
 	restarts := c.Intn(3, "restarts")
 	r.Config["clients"], r.Config["gated"], r.Config["ops"] = nClients, gated, nOps
 	r.Config["max_budget"], r.Config["step_sec"], r.Config["bonus"], r.Config["global_budget"] = w.opt.MaxBudget, w.opt.StepSec, w.opt.BudgetBonus, w.opt.GlobalBudget
@@ -254,6 +260,7 @@ func w4Run(t *testing.T, r *verifsim.Run) {
 		go w.clientLoop(cl)
 	}
 	if nf := c.Intn(4, "followers"); nf > 0 {
+		w.holdFollowers = c.Intn(2, "hold_followers") == 1
 		w.initFollowers(nf)
 	}
 	r.Config["journal_followers"] = len(w.followers)
@@ -316,6 +323,15 @@ func w4Run(t *testing.T, r *verifsim.Run) {
 			if len(w.followers) > 0 {
 				acts = append(acts, act{"broadcast"})
 			}
+		} else if w.heldFollower != nil && !w.broadcasting {
+			// a follower call is parked between the handler's re-check and its registration. It may go on
+			// at any time; the second half of an edit (broadcastJournal) may run meanwhile only if the
+			// handler lets it, i.e. if the parked call does not hold the client-list mutex (a broadcast
+			// waiting on that mutex would freeze the simulated clock, and would be no interleaving anyway)
+			acts = append(acts, act{"release_follower"})
+			if w.clientListFree() {
+				acts = append(acts, act{"broadcast"})
+			}
 		}
 		if len(w.backups) < 2 && issued > 2 {
 			acts = append(acts, act{"backup"})
@@ -347,11 +363,16 @@ func w4Run(t *testing.T, r *verifsim.Run) {
 			}
 			w.gate = gated
 			w.startFollow(idle[c.Intn(len(idle), "follower")])
+		case "release_follower":
+			r.Sched("release", fmt.Sprintf("follower%d", w.heldFollower.id))
+			r.Event(fmt.Sprintf("follower%d", w.heldFollower.id), "goes on after the re-check")
+			w.releaseHeld()
 		case "broadcast":
 			// second half of RawEditEntity (SaveEntity; broadcastJournal) as its own step
 			r.Sched("broadcast", "handler")
 			r.Event("handler", "broadcastJournal")
 			w.broadcasting = true
+			w.savesSinceBroadcast = 0
 			go func() {
 				defer func() {
 					if p := recover(); p != nil {
@@ -434,6 +455,7 @@ func w4Run(t *testing.T, r *verifsim.Run) {
 	}
 	// followers: one last broadcast, then everybody polls until parked
 	if len(w.followers) > 0 {
+		w.savesSinceBroadcast = 0
 		w.handler.broadcastJournal()
 		w.finalFollowerCheck()
 		if r.Failed() {
@@ -487,6 +509,12 @@ func (w *w4World) collect() {
 					r.Fail(r.Prop, "panic", "panic:client", "operation %s panicked: %s", op.in, op.out.Err)
 				}
 				w.learn(op)
+				if op.in.Kind == "save" && op.out.Err == "" {
+					w.savesSinceBroadcast++
+					if op.out.Ver > w.maxVerSeen {
+						w.maxVerSeen = op.out.Ver
+					}
+				}
 			} else {
 				r.Event(fmt.Sprintf("client%d", cl.id), "return %s", op.mout)
 				if strings.HasPrefix(op.mout.Err, "PANIC") {
@@ -500,12 +528,33 @@ func (w *w4World) collect() {
 		r.Fail("C15", "panic", "panic:broadcast", "broadcastJournal panicked: %s", w.broadcastPanic)
 	}
 	w.collectFollowers()
+	w.checkLongPolls()
+}
+
+// checkLongPolls: when every completed save has been followed by a broadcast that started after it
+// (broadcastJournal is the second half of an edit) and nothing of the handler is in flight, a follower
+// registered as a long poll must already have the newest version: otherwise it was registered past a
+// broadcast it should have been part of and now waits for an edit that may never come.
+func (w *w4World) checkLongPolls() {
+	if w.r.Failed() || w.savesSinceBroadcast != 0 || w.broadcasting || w.heldFollower != nil {
+		return
+	}
+	for _, f := range w.followers {
+		if f.busy || !f.parked || f.asyncReady {
+			continue
+		}
+		if f.pos < w.maxVerSeen {
+			w.r.Fail("C15", "journal_long_poll_missed", "registered-past-broadcast", "follower %d waits in a long poll from version %d although version %d exists and every completed save has been broadcast: the journal will not return that version to it until some later edit", f.id, f.pos, w.maxVerSeen)
+			return
+		}
+	}
 }
 
 // drain completes everything in flight.
 func (w *w4World) drain() {
 	for i := 0; i < 1000; i++ {
 		verifsim.Wait()
+		w.releaseHeld()
 		w.collect()
 		if len(w.parked) > 0 {
 			ch := w.parked[0]
